@@ -280,11 +280,22 @@ def run_case(case):
             G = M
             res.count("multigraph_substrates")
         nodes = list(G.nodes())
+        loops = []
+        if rng.random() < 0.25:
+            # "all substrate graphs": self-loops are edges of the substrate too (deleting one never disconnects anything), and with one on the
+            # focal vertex the natural vertex list `list(G.neighbors(i))` contains the focal vertex itself
+            loops = rng.sample(nodes, rng.randint(1, min(2, len(nodes))))
+            for v in loops:
+                G.add_edge(v, v)
+            res.count("substrates_with_self_loops")
         nt = False
         snap = (sorted(G.nodes()), sorted(map(tuple, map(sorted, G.edges()))))
         for _ in range(6):
-            i = rng.choice(nodes)
+            i = rng.choice(nodes) if not loops or rng.random() < 0.5 else rng.choice(loops)
             ak = rng.sample([v for v in nodes if v != i], rng.randint(0, n - 1))
+            if rng.random() < 0.35:
+                ak = list(G.neighbors(i))          # the neighbours as the graph lists them (the focal vertex among them if it has a self-loop)
+                res.count("vertex_lists_taken_from_the_neighbour_iterator")
             members = [i] + ak
             me = G.subgraph(members).number_of_edges()
             ks = range(0, me + 2) if me <= 11 else [0, 1, 2, me - 1, me, me + 1]
